@@ -7,7 +7,7 @@
 //   (outside / inside / on / far / degenerate / near). Oracles are harness-side closed forms (long double),
 //   a robust point-to-ellipsoid solver, dense surface sampling with local refinement, brute force over triangles,
 //   finite differences with two step sizes, and the shape operator computed from gradient and Hessian.
-// C36: case kind = index mod 6: (0,1) closed triangle mesh: topology, OBB tree walk, nearest/ray/inside against
+// C36: case kind cycles over 12 consecutive indices (2 meshes, 3 clouds, 2 Geo, 3 round trips, 2 hostile): (0,1) closed triangle mesh: topology, OBB tree walk, nearest/ray/inside against
 //   brute force; (2) OrientedBoundingBox(points); (3) Geo bounding spheres/boxes; (4) file round trips;
 //   (5) malformed files and invalid meshes.
 //
@@ -47,8 +47,12 @@ static void checkC34(vh::Ctx& c, long i, vh::Rng& r, int nq, int forceKind) {
 }
 
 static void checkC36(vh::Ctx& c, long i, vh::Rng& r, const vh::Args& a) {
-    int kind = (int)(i % 6);
-    long j = i / 6;
+    // kinds per 12 consecutive cases: 2 meshes, 3 point-cloud OBBs, 2 Geo bounds, 3 round trips, 2 malformed/invalid
+    static const int KIND[12] = {0, 2, 4, 3, 5, 2, 1, 4, 3, 2, 4, 5};
+    static const int ORD[12] = {0, 0, 0, 0, 0, 1, 0, 1, 1, 2, 2, 1};
+    static const int PER[6] = {1, 1, 3, 2, 3, 2};
+    int kind = KIND[i % 12];
+    long j = (i / 12) * PER[kind] + ORD[i % 12];
     if (a.getInt("ckind", -1) >= 0) { kind = (int)a.getInt("ckind", -1); j = i; }   // investigation aid: --ckind k
     switch (kind) {
     case 0: case 1: {
@@ -60,7 +64,7 @@ static void checkC36(vh::Ctx& c, long i, vh::Rng& r, const vh::Args& a) {
         c.obs("mesh-faces", b.m.nf());
         c36::topologyChecks(c, b);
         c36::obbChecks(c, b);
-        c36::meshQueryChecks(c, b, r, (int)a.getInt("nearq", 28), (int)a.getInt("rayq", 25));
+        c36::meshQueryChecks(c, b, r, (int)a.getInt("nearq", 21), (int)a.getInt("rayq", 15));
         if (c.wantSample()) c.sample(Json::obj().set("mesh", b.cls).set("faces", b.m.nf()).set("vertices", b.m.nv()).set("via_polygonal_mesh", b.viaPolygonal));
     } break;
     case 2: c36::obbPointsChecks(c, r, j); break;
